@@ -4,7 +4,8 @@ import itertools
 LEVEL = "proof"
 MODEL = "lean/Sentinel/SlotChain.lean (Chain.entry / Chain.exit / Chain.build)"
 RULE = ("chains of 0..4 slots per kind, order values from a small set with repeats, check results from "
-        "{pass, blocked(type i), wait}; build then exit (twice sometimes). quick: random; thorough: additionally "
+        "{pass, blocked(type i), wait}; build then exit (twice sometimes); a quarter of the cases use one context for several entries "
+        "(SlotChain::entry / exit called directly, check results scripted per call) and preparation slots that write a blocked verdict into the context. quick: random; thorough: additionally "
         "every assignment of results to <=4 check slots over 3 order patterns. A case is non-trivial when it has "
         "at least one check slot and one stat slot; distinct = distinct op text.")
 NONTRIVIAL_TAGS = ["blocked", "passed"]
@@ -31,6 +32,24 @@ def gen(rng, tier):
         c = case(pre, chk, stat)
         if rng.random() < 0.2:
             c.append("exit")
+        out.append(c)
+    # a context used for several entries (SlotChain::entry / exit called directly) and preparation slots that write a verdict
+    # into the context: every entry is decided by its own check slots only (seed C13-d)
+    for _ in range(n // 3):
+        orders = rng.choice([[1, 2, 3, 4, 5], [1, 1, 2, 2, 3], [7, 7, 7]])
+        pre = ["%d%s" % (rng.choice(orders), ":D%d" % rng.randint(0, 2) if rng.random() < 0.35 else "") for _ in range(rng.randint(0, 3))]
+        k = rng.randint(1, 3)
+        chk = ["%d:%s" % (rng.choice(orders), "/".join(rng.choice(RES if rng.random() < 0.5 else ["P", "P", "W9"]) for _ in range(k))) for _ in range(rng.randint(0, 3))]
+        stat = [rng.choice(orders) for _ in range(rng.randint(1, 3))]
+        c = ["chain pre=%s chk=%s stat=%s" % (",".join(pre), ",".join(chk), ",".join(map(str, stat)))]
+        if rng.random() < 0.6:
+            for _ in range(k + rng.randint(0, 1)):
+                c.append("rentry")
+                if rng.random() < 0.85:
+                    c.append("rexit")
+        else:
+            for _ in range(k):
+                c += ["build", "exit"]
         out.append(c)
     if tier == "thorough":
         for k in range(0, 5):
